@@ -9,14 +9,20 @@ def codes(s):
 
 class C14(Prop):
     pid = "C14"
-    lean_targets = ["M17.Props.C14"]
-    theorems = ["M17.C14.active_phase", "M17.C14.keyup_output", "M17.C14.keyup_ends_idle", "M17.C14.idle_discards_audio", "M17.C14.eos_bit"]
+    lean_targets = ["M17.Props.C14", "M17.Props.C14T"]
+    theorems = ["M17.C14.active_phase", "M17.C14.keyup_output", "M17.C14.keyup_ends_idle", "M17.C14.idle_discards_audio", "M17.C14.eos_bit",
+                "M17.C14T.bytes_ext", "M17.C14T.convEncode_eq_spec", "M17.C14T.channel_eq", "M17.C14T.punctureBytes_bits", "M17.C14T.lichSegment_bits",
+                "M17.C14T.sendLinkSetup_eq_spec", "M17.C14T.streamFrame_eq_spec", "M17.C14T.modulator_lsf_decodes", "M17.C14T.modulator_stream_decodes"]
     level_text = ("Lean 4 theorems about the modelled modulate() state machine: from IDLE, ptt_on followed by any number n of audio samples while "
                   "ACTIVE and ptt_off produces exactly preamble, link-setup frame, floor(n/320) audio frames numbered 0,1,2,... (mod 0x8000) with "
                   "LICH fragments cycling 0..5, then one frame carrying the end-of-stream bit, and ends IDLE with audio received while idle "
                   "discarded — for every n (loop invariant by induction). That no byte is lost, duplicated or reordered on the way to a slow "
                   "consumer follows from C15 (FIFO over all schedules) and C16 (default-timeout put never gives up while the queue is open). "
-                  "The byte content of each frame (M17 field order, CRC, specification encoding of FN / LICH / payload) and the real thread "
+                  "The byte content of each frame is a theorem too (M17.Props.C14T): the model TxModulator of conv_encode / puncture_bytes / the packed-byte "
+                  "interleaver / M17ByteRandomizer / make_lich_segment (assign_bit_index) / send_link_setup / make_payload / send_audio_frame produces "
+                  "exactly Spec.Tx.lsfFrame and Spec.Tx.streamFrame for every callsign pair over the alphabet, LICH index 0..5, frame number and payload, "
+                  "whatever the buffers the code leaves uninitialised held (sendLinkSetup_eq_spec, streamFrame_eq_spec); the model is tied to the real "
+                  "modulator by reproducing every frame it emitted in this run. M17 field order, CRC, specification encoding and the real thread "
                   "interleavings are checked on every run: M17Modulator runs with real threads over a codec2 stand-in whose output fingerprints "
                   "its input, under eager / slow / stalling consumers and trickled / bursty audio, 1-3 key-ups; every emitted frame is decoded by "
                   "the repository's decoder and re-encoded by the independent specification encoder and must match bit-for-bit; payload "
@@ -149,6 +155,34 @@ class C14(Prop):
                 ctx.violate("modulator-api:" + problem.split(":")[0][:30], f"M17Modulator({src!r},{dst!r}) with callsign changes {steps}: {problem}",
                             {"stream": "modulator-api", "ops": [ln]})
 
+    def model_tie(self, ctx, data, src, dst, keyups, plan, offs, pers, lsf, rep):
+        """the Lean model of the modulator's frame builders (M17.TxModulator, about which C14T proves "= Spec.Tx") reproduces the bytes the real
+        modulator emitted: LSF frame from the callsigns, every stream frame from (LICH index, frame number, payload as decoded), with arbitrary
+        previous contents for the buffers the code leaves uninitialised"""
+        if not ctx.model_ok:
+            return
+        rng = ctx.rng
+        reqs, want = [], []
+        i = 1
+        for k in range(keyups):
+            frames = plan[k][0]
+            seg = data[offs[k]:offs[k] + pers[k]]
+            reqs.append(f"txm_lsf {len(src)} {codes(src)} {len(dst)} {codes(dst)} ".replace("  ", " ") + " ".join(str(rng.randrange(256)) for _ in range(46)))
+            want.append(" ".join(map(str, seg[48:96])))
+            i += 1
+            for f in range(frames + 1):
+                r = decgen.parse_reply(rep[i]); i += 1
+                if not r or not r["calls"] or r["calls"][0]["type"] != 2:
+                    continue
+                pl = r["calls"][0]["bytes"]
+                fn = (pl[0] << 8) | pl[1]
+                reqs.append(f"txm_frame {f % 6} {fn} " + " ".join(map(str, list(lsf) + pl[2:] + [rng.randrange(256) for _ in range(46)])))
+                want.append(" ".join(map(str, seg[96 + 48 * f:96 + 48 * (f + 1)])))
+        reqs = [" ".join(x.split()) for x in reqs]
+        got = ctx.run_model(reqs)
+        ctx.compare("txmodulator", reqs, want, got, oracle=lambda ln, a: None, sig=lambda ln: ln.split()[0])
+        ctx.traces += len(reqs)
+
     def long_keyup(self, ctx, exe, dec):
         """one key-up longer than 32768 stream frames: the 15-bit frame number wraps while the LICH fragment index must keep cycling 0..5
         (32768 is not a multiple of 6); frames around the wrap, the first ones and a random sample are decoded and re-encoded"""
@@ -220,6 +254,7 @@ class C14(Prop):
                     return f"stream frame {f}: wrong sync word"
                 lines.append("dec_frame 1 1 " + " ".join(map(str, S.soft(S.bits_of(fr[2:]), 7))))
         rep = ctx.run_impl(dec, lines, "modulator-decode")
+        self.model_tie(ctx, data, src, dst, keyups, plan, offs, pers, lsf, rep)
         i = 1
         prev_last = None
         for k in range(keyups):
